@@ -655,6 +655,13 @@ impl<Writer: Write> Mp4Writer<Writer> {
         if self.finalized {
             return Err(io::Error::other("mp4 writer already finalised"));
         }
+        // The visual sample entry stores width and height as 16-bit values.
+        if video.width > u32::from(u16::MAX) || video.height > u32::from(u16::MAX) {
+            return Err(io::Error::new(
+                io::ErrorKind::InvalidInput,
+                "video width and height must fit in 16 bits",
+            ));
+        }
         self.finalized = true;
 
         let video_config = self
